@@ -309,7 +309,7 @@ func init() {
 		Cases: func(seed uint64, tier string) []Case {
 			ng := 30
 			if !quick(tier) {
-				ng = 600
+				ng = 150
 			}
 			var cs []Case
 			for i := 0; i < ng; i++ {
